@@ -80,6 +80,7 @@ struct Bus {
 	bool answers_enabled = true;
 	std::map<std::string, uint64_t> fired;       // fault kind -> times it actually fired
 	std::map<int, uint64_t> answered_types;
+	std::map<int, std::pair<uint64_t, uint64_t>> type_delays;   // answer type -> (from the n-th answer of that type on, extra delay in us): a slow node
 	int receiver_task = -1;
 	uint64_t max_write = 0;
 
@@ -387,8 +388,11 @@ struct Bus {
 			else fs.push_back(it->second);
 		}
 		answered_types[a.type]++;
+		uint64_t extra = 0;
+		auto td = type_delays.find(a.type);
+		if (td != type_delays.end() && answered_types[a.type] >= td->second.first) { extra = td->second.second; fired["slow-node"]++; if (extra >= 2000000) fired["delay>=2s"]++; }
 		ref::Msg r; r.type = a.type; r.data = a.data;
-		emit_msgs(idx, {r}, fs, resp_delay_us, 0, true);
+		emit_msgs(idx, {r}, fs, resp_delay_us + extra, 0, true);
 	}
 };
 
